@@ -46,7 +46,7 @@ type c16Case struct {
 	DepthMul   int    `json:"depthmul,omitempty"` // >1: the four distinguishable depth values are 1..4 times this factor (depths far above the default)
 }
 
-var c16Formats = []string{"2006/01/02", "2006-01-02", "02.01.2006", "20060102", "02/01/2006", "2006/01/02"} // index 0 = default, 5 = default given explicitly
+var c16Formats = []string{"2006/01/02", "2006-01-02", "02.01.2006", "2006/02/01", "02/01/2006", "2006/01/02"} // index 0 = default, 5 = default given explicitly
 
 func c16Pick(s c16Src, hasCfg bool, def int) (val int, level string) {
 	switch {
@@ -381,6 +381,10 @@ func checkC16(c c16Case, ctx *vCtx) *vFailure {
 	if p.failed || !strings.HasPrefix(p.out, vFmtDay(41, layout)+":\n") {
 		return vFailSig(c16Sig(c), "%s: print should write dates in the format %q chosen by %s; got failed=%v:\n%s", desc, layout, fmtLevel, p.failed, vTrunc(p.out, 300))
 	}
+	// date arguments are read in that format too: the first record's date as both bounds selects exactly that record
+	if sel := run("csv", "log", "-b", vFmtDay(41, layout), "-e", vFmtDay(41, layout)); sel.failed || strings.Count(sel.out, "\n") != 1 {
+		return vFailSig(c16Sig(c), "%s: csv log -b %s -e %s should select the one record of that day (date format %q chosen by %s); got failed=%v (%s):\n%s", desc, vFmtDay(41, layout), vFmtDay(41, layout), layout, fmtLevel, sel.failed, sel.err, vTrunc(sel.out, 300))
+	}
 	// 5. today
 	st := run("stats")
 	{
@@ -602,7 +606,81 @@ func c16EnumSpace() []c16Case {
 	return out
 }
 
+
+// ---------------------------------------------------------------------------
+// the recipe-book path and the log path may name the same file (each from any source): every command must read that
+// file once per role, i.e. report what it reports for two separate copies of the file
+
+type c16SameCase struct {
+	BookVia string `json:"bookvia"` // "flag" | "env" | "config"
+	LogVia  string `json:"logvia"`
+	Cmd     int    `json:"cmd"`
+}
+
+var c16SameCmds = [][]string{{"reg", "--no-color"}, {"bal"}, {"summary", "2021/01/01"}, {"report", "totals"}, {"report", "unresolved"}, {"report", "quantity"}, {"print"}, {"csv", "log"}, {"csv", "database-resolved"}, {"bal", "-s", "x"}, {"reg", "-s", "x"}}
+
+func checkC16Same(c c16SameCase, ctx *vCtx) *vFailure {
+	// a file that is a valid recipe book (recipes named like dates) and a valid log at once
+	text := "2021/01/01:\n  x: 5\n  2021/01/02: 2\n2021/01/02:\n  y: 3\n  x: 1\n"
+	both := vWriteFile("c16-both.yaml", text)
+	cp1, cp2 := vWriteFile("c16-copy1.yaml", text), vWriteFile("c16-copy2.yaml", text)
+	mk := func(book, log string) vInvocation {
+		var cfg strings.Builder
+		cfg.WriteString("[Global]\n")
+		args := []string{"--today", vToday}
+		env := map[string]string{}
+		switch c.BookVia {
+		case "flag":
+			args = append(args, "-d", book)
+		case "env":
+			env["HR_DATABASE"] = book
+		default:
+			fmt.Fprintf(&cfg, "DbFileName=%s\n", book)
+		}
+		switch c.LogVia {
+		case "flag":
+			args = append(args, "-l", log)
+		case "env":
+			env["HR_LOGFILE"] = log
+		default:
+			fmt.Fprintf(&cfg, "LogFileName=%s\n", log)
+		}
+		if c.BookVia == "config" || c.LogVia == "config" {
+			args = append([]string{"--config", vWriteFile("c16-same.conf", cfg.String())}, args...)
+		}
+		return vInvocation{Args: append(args, c16SameCmds[c.Cmd]...), Env: env}
+	}
+	ref := vRunApp(mk(cp1, cp2))
+	got := vRunApp(mk(both, both))
+	ctx.Run(2)
+	ctx.NonTrivial(true)
+	ctx.Label("book-via:" + c.BookVia)
+	ctx.Label("log-via:" + c.LogVia)
+	if ref.Failed {
+		vViolate("C16: %v fails on valid files: %s", c16SameCmds[c.Cmd], ref)
+	}
+	if got.Failed != ref.Failed || got.Stdout != ref.Stdout {
+		return vFailSig("C16/same-file", "%v with the recipe-book path (from %s) and the log path (from %s) naming the same file: failed=%v\n%s\nbut with two copies of that file: failed=%v\n%s", c16SameCmds[c.Cmd], c.BookVia, c.LogVia, got.Failed, vTrunc(got.Stdout, 600), ref.Failed, vTrunc(ref.Stdout, 600))
+	}
+	return nil
+}
+
+func TestVerifC16Same(t *testing.T) {
+	var space []c16SameCase
+	for _, b := range []string{"flag", "env", "config"} {
+		for _, l := range []string{"flag", "env", "config"} {
+			for ci := range c16SameCmds {
+				space = append(space, c16SameCase{BookVia: b, LogVia: l, Cmd: ci})
+			}
+		}
+	}
+	vEnum(t, "C16", "c16.same",
+		"recipe-book path and log path naming one and the same file, each given by flag, environment variable or configuration entry (9 combinations) x 11 commands; oracle: the report for two separate copies of that file",
+		fmt.Sprintf("%d combinations", len(space)), len(space), func(i int) c16SameCase { return space[i] }, checkC16Same)
+}
+
 func init() {
+	vRegister("C16", "c16.same", checkC16Same)
 	vRegister("C16", "c16.random", checkC16)
 	vRegister("C16", "c16.enum", checkC16)
 }
